@@ -1,6 +1,7 @@
 package checks
 
 import (
+	"bytes"
 	"errors"
 	"fmt"
 	"math"
@@ -28,11 +29,15 @@ type handlerResult struct {
 	bulkPad string
 }
 
+// preparedMsg is a status message over preparedBuf, both rebuilt for every run (the handler owns the buffer).
+var preparedBuf []byte
+var preparedMsg *redis.Message
+
 // cachedArray is rebuilt for every run (see runC04): executors that walk a handler's array move its read cursor.
 var cachedArray *redis.Message
 
 func drawHandlerResult(t *sim.Tape) handlerResult {
-	h := handlerResult{kind: t.Draw(12, "hkind")}
+	h := handlerResult{kind: t.Draw(14, "hkind")}
 	h.text = hostileText[t.Draw(len(hostileText), "htext")]
 	if t.Draw(4, "pad") == 3 { // 0 stays the cheap choice
 		// the hostile bytes at the very end of a text whose reply line ends around a power of two
@@ -63,7 +68,7 @@ func drawHandlerResult(t *sim.Tape) handlerResult {
 				h.bulkPad = strings.Repeat("y", l-len(h.text))
 			}
 		}
-	case 10:
+	case 10, 13:
 		h.typ = t.Draw(4, "htype")
 	case 6:
 		h.f = []float64{0, 1.5, math.Inf(1), math.Inf(-1), math.NaN(), -0.0, 1e300}[t.Draw(7, "hfloat")]
@@ -93,6 +98,16 @@ func (h handlerResult) apply(c *wl.Call) (*redis.Message, error, bool) {
 		return redis.NewBulkMessage(h.bulkPad + h.text), nil, true
 	case 11: // one array message object kept by the handler and returned again and again (a caching store)
 		return cachedArray, nil, true
+	case 12: // one prepared status message whose buffer the handler rewrites in place before every return
+		for i := range preparedBuf {
+			preparedBuf[i] = ' '
+		}
+		copy(preparedBuf, h.text)
+		return preparedMsg, nil, true
+	case 13: // a message whose exported Type field the handler sets after building it (a bulk turned into a line type)
+		m := redis.NewBulkMessage(h.text)
+		m.Type = []proto.MessageType{proto.StringMessage, proto.ErrorMessage, proto.IntegerMessage, proto.BulkMessage}[h.typ]
+		return m, nil, true
 	case 10: // message of any line/bulk type whose payload the handler set itself (exported proto API)
 		mt := []proto.MessageType{proto.StringMessage, proto.ErrorMessage, proto.IntegerMessage, proto.BulkMessage}[h.typ]
 		return proto.NewMessageWithType(mt).SetBytes([]byte(h.text)), nil, true
@@ -121,6 +136,11 @@ func genClientValue(t *sim.Tape, g *wl.Gen, i int) ([]byte, string, string) {
 			resp.Ar(resp.Bs("GET"), resp.Ar(resp.Bs("k"))),
 			resp.Ar(resp.Bs("SET"), resp.Bs("k"), resp.In(7)),
 			resp.Ar(resp.Bs("ECHO"), resp.St("status-arg")),
+			resp.Ar(resp.Bs("ECHOARG"), resp.Value{K: resp.Status, S: []byte("a\nb")}),
+			resp.Ar(resp.Bs("ECHOARG"), resp.Value{K: resp.Error, S: []byte("ERR x\n+OK")}),
+			resp.Ar(resp.Bs("ECHOARG"), resp.Bs("bulk\r\narg")),
+			resp.Ar(resp.Bs("ECHOARG"), resp.Ar(resp.St("in\nner"), resp.In(3))),
+			resp.Ar(resp.Bs("ECHOARG")),
 			resp.Ar(resp.Bs("LPOP"), resp.Bs("k"), resp.NullBulk()),
 			resp.Ar(resp.Bs("G\r\nET"), resp.Bs("k")),
 			resp.Ar(resp.Bs("\r\n+OK\r\n")),
@@ -191,7 +211,7 @@ func runC04(t *testing.T, tape *sim.Tape, tier string) *Outcome {
 	// an integer message whose text a handler made non-numeric cannot be turned into a number by the framework:
 	// such runs judge integer replies on framing (one complete line without CR/LF) only
 	for _, h := range plan {
-		if h.kind == 10 && h.typ == 2 {
+		if (h.kind == 10 || h.kind == 13) && h.typ == 2 {
 			resp.LaxInteger = true
 			o.stat("runs_with_handler_set_integer_text", 1)
 			break
@@ -199,6 +219,12 @@ func runC04(t *testing.T, tape *sim.Tape, tier string) *Outcome {
 	}
 	defer func() { resp.LaxInteger = false }()
 	cachedArray = redis.NewStringArrayMessage([]string{"a", "b", "1", "c", "2", "d"})
+	preparedBuf = bytes.Repeat([]byte{'x'}, 48)
+	preparedMsg = proto.NewMessageWithType(proto.StringMessage).SetBytes(preparedBuf)
+	// an application executor that answers with the very message object it received as its argument
+	c.Srv.RegisterExexutor("ECHOARG", func(conn *redis.Conn, cmd string, args redis.Arguments) (*redis.Message, error) {
+		return args.NextMessage()
+	})
 	c.D.RawResult = func(call *wl.Call) (*redis.Message, error, bool) {
 		if call.Seq < len(plan) {
 			m, err, ok := plan[call.Seq].apply(call)
@@ -293,8 +319,8 @@ func runC04(t *testing.T, tape *sim.Tape, tier string) *Outcome {
 func init() {
 	register(&Check{
 		ID: "C04", Bubble: true, Run: runC04,
-		Runs:   map[string]int{"quick": 40000, "thorough": 1500000},
-		Rule:   "a case is one (client value stream, handler-result plan, delivery schedule) triple: client values of every RESP type incl. odd command arrays and hostile bytes; per handler call an injected result (hostile status/error text incl. texts padded so that the reply line ends within a few bytes of a power of two between 64 B and 64 KiB, rarely of 1..3 MiB, arbitrary value tree, nil, error, message+error, floats incl. Inf/NaN, status/error/integer/bulk messages whose payload the handler set through proto.Message.SetBytes, one cached array message object returned by many calls); one run in eight has the client stop reading behind a small window for 1 s .. 1 h of simulated time before it reads on; distinct = distinct (shape, chunking, stream hash) signatures; non-trivial = handler faults enabled or chunked delivery",
+		Runs:   map[string]int{"quick": 30000, "thorough": 1500000},
+		Rule:   "a case is one (client value stream, handler-result plan, delivery schedule) triple: client values of every RESP type incl. odd command arrays and hostile bytes; per handler call an injected result (hostile status/error text incl. texts padded so that the reply line ends within a few bytes of a power of two between 64 B and 64 KiB, rarely of 1..3 MiB, arbitrary value tree, nil, error, message+error, floats incl. Inf/NaN, status/error/integer/bulk messages whose payload the handler set through proto.Message.SetBytes, one cached array message object returned by many calls, one prepared status message whose buffer the handler rewrites in place, messages whose Type field the handler sets after building them); an application executor that answers with the message object it received (line-typed arguments with LF inside); one run in eight has the client stop reading behind a small window for 1 s .. 1 h of simulated time before it reads on; distinct = distinct (shape, chunking, stream hash) signatures; non-trivial = handler faults enabled or chunked delivery",
 		Real:   []string{"redis.Server connection loop, dispatch, executors, error construction, redis/proto serializer"},
 		Stub:   []string{"transport: simulated net.Conn", "handler: double returning injected results built with the public constructors"},
 		Assume: []string{"an integer message whose text a handler set to non-numeric bytes is judged on framing only (one complete line without CR/LF): the framework cannot make it a number", "arrays are built with NewArrayMessage/Append of non-nil messages"},
